@@ -30,6 +30,6 @@ MANIFEST = {
             "(preferably near-miss) assignment per formula, for message lengths {0,1,31,32,33,1000}, with original and unmarshalled public / system / attribute keys, in the current layout and in the legacy layout "
             "(transcoded by the harness with the known Boneh-Katz seed; transcoder validated against testdata/ciphertext_v137). No same-length alteration of a ciphertext may decrypt to a different message; panics on single-bit "
             "alterations are reported, other panics only counted (they belong to C10). White-box (internal/tkn): Formula.share is run n+3 times per generated monotone formula, with and without the Boneh-Katz gate of insertAnd; "
-            "for every subset of input wires a fixed linear combination of its shares may reproduce the secret in all runs iff the subset satisfies the formula, and five concrete unauthorised keys must not open the envelope by running decapsulate on a reduced header. Object reuse: one Attributes object refilled by FromMap with a sequence of maps that lose labels, one Policy object refilled by FromString / ExtractFromCiphertext, one AttributeKey object unmarshalled twice — every predicate (Satisfaction, CouldDecrypt, KeyGen->Decrypt, String in both orders) is compared with the reference for the LAST input only. Exploration is the right level: the formula x assignment x randomness space is unbounded while the oracle is exact per case.",
+            "for every subset of input wires a fixed linear combination of its shares may reproduce the secret in all runs iff the subset satisfies the formula, and five concrete unauthorised keys must not open the envelope by running decapsulate on a reduced header. Object reuse: one Attributes object refilled by FromMap with a sequence of maps that lose labels, one Policy object refilled by FromString / ExtractFromCiphertext, one AttributeKey object unmarshalled twice — every predicate (Satisfaction, CouldDecrypt, KeyGen->Decrypt, String in both orders) is compared with the reference for the LAST input only. Length fields: message lengths that put the envelope / MAC data at 2^15 and 2^16 (and the legacy maximum 2^16-1) +-1, and labels / values / serialised policy / header at 2^15 and the u16 maximum +-1, in both layouts, through Decrypt / CouldDecrypt / ExtractFromCiphertext with a satisfying and a non-satisfying key. Exploration is the right level: the formula x assignment x randomness space is unbounded while the oracle is exact per case.",
     "note": "trusts the hand-written reference evaluator/parser (cross-checked: two evaluators, renderer vs parser, repository policies.json cases) and x/crypto/blake2b; assignments are exhaustive only over the 4x3 alphabet; full cycles sample a few assignments per formula; an altered ciphertext that an UNauthorised key decrypts to the original message would only be counted (class + note), since the property text does not forbid it; the native fuzz target FuzzC20PolicyFromString exists but is not run by the driver; never establishes absence",
 }
